@@ -295,10 +295,38 @@ func sumOfG1Products(bases []*ml.G1, scalars []*ml.Zr) *ml.G1 {
 	return res
 }
 
+// pairingCurve evaluates the pairing equation. It is the gnark-crypto backed driver of the same curve: the kilic driver
+// behind `curve` is built, in this module graph, against a pre-release of kilic/bls12-381 whose pairing gives a wrong
+// result for about one input in 200000, and valid signatures and honest proofs were rejected ("bad signature") at that rate.
+// nolint:gochecknoglobals
+var pairingCurve = ml.Curves[ml.BLS12_381_BBS_GURVY]
+
 func compareTwoPairings(p1 *ml.G1, q1 *ml.G2,
 	p2 *ml.G1, q2 *ml.G2) bool {
-	p := curve.Pairing2(q1, p1, q2, p2)
-	p = curve.FExp(p)
+	g1 := make([]*ml.G1, 0, 2) //nolint:gomnd
+	g2 := make([]*ml.G2, 0, 2) //nolint:gomnd
+
+	// both drivers use the same (compressed) point encoding
+	for _, p := range []*ml.G1{p1, p2} {
+		pp, err := pairingCurve.NewG1FromCompressed(p.Compressed())
+		if err != nil {
+			return false
+		}
+
+		g1 = append(g1, pp)
+	}
+
+	for _, q := range []*ml.G2{q1, q2} {
+		qq, err := pairingCurve.NewG2FromCompressed(q.Compressed())
+		if err != nil {
+			return false
+		}
+
+		g2 = append(g2, qq)
+	}
+
+	p := pairingCurve.Pairing2(g2[0], g1[0], g2[1], g1[1])
+	p = pairingCurve.FExp(p)
 
 	return p.IsUnity()
 }
